@@ -782,6 +782,19 @@ pub mod verif {
         pub cursor_yields: Option<Vec<usize>>,
     }
 
+    /// O(1) summary of the backing tables.
+    #[derive(Clone, Copy, Debug, PartialEq, Eq, Hash)]
+    pub struct Stats {
+        /// Elements in the main table.
+        pub main_len: usize,
+        /// Buckets of the main table.
+        pub main_buckets: usize,
+        /// Capacity of the main table.
+        pub main_capacity: usize,
+        /// `(len, buckets, size_hint of the cached iterator)` of the old table, if present.
+        pub old: Option<(usize, usize, usize)>,
+    }
+
     /// The number of elements moved per insert.
     pub const R: usize = super::R;
 }
@@ -811,6 +824,18 @@ impl<T> RawTable<T> {
             capacity: t.capacity(),
             ctrl,
             elems,
+        }
+    }
+
+    pub(crate) fn verif_stats(&self) -> verif::Stats {
+        verif::Stats {
+            main_len: self.table.len(),
+            main_buckets: self.table.buckets(),
+            main_capacity: self.table.capacity(),
+            old: self
+                .leftovers
+                .as_ref()
+                .map(|lo| (lo.table.len(), lo.table.buckets(), lo.items.size_hint().0)),
         }
     }
 
